@@ -51,6 +51,10 @@ func init() {
 			}},
 		Rule{ID: "C10.b", Explain: "SignedAccumulator.UnmarshalVerify caches/returns a decoded accumulator only after the key counter matched and signed.UnmarshalVerify(pk.ECDSA, s.Data, fresh object) returned nil; signed.UnmarshalVerify decodes the payload into the destination only after Verify succeeded; signed.Verify is nil only if the DER signature has no trailing bytes and ecdsa.Verify over sha256(message) is true. The memoised path ignoring pk/Data is reported (known finding).",
 			Run: func(P *Program, R *Report) { signedAccumulatorRule(P, R) }},
+		Rule{ID: "C10.h", Explain: "memos of verification cannot arrive over the wire: SignedAccumulator.Accumulator, EventList.verified and Update.product are excluded from decoding.",
+			Run: func(P *Program, R *Report) {
+				notDecodableRule(P, R, "C10.h", [][2]string{{"revocation.SignedAccumulator", "Accumulator"}, {"revocation.EventList", "verified"}, {"revocation.Update", "product"}, {"revocation.Update", "productFrom"}})
+			}},
 		Rule{ID: "C10.c", Explain: "EventList.Verify: nil with a non-empty list => the last event's hash was compared with acc.EventHash (before any memo shortcut); for every i>0 the parent-hash test passed and for every i Index == start+i (unless the list carries the verified memo, tabled exemption).",
 			Run: func(P *Program, R *Report) { eventListVerifyRule(P, R) }},
 		Rule{ID: "C10.d", Explain: "byte equality: Hash.Equal is true only for equal length and bytes; hashEquals is nil only if Equal held between a freshly computed hash of the event (hashUsingAlg, which whitelists the algorithm) and the given hash; only SHA2-256 is whitelisted. (Decoding the given hash's header is not demanded separately: with exact equality against a freshly computed well-formed hash it is redundant.)",
